@@ -426,6 +426,25 @@ Proof.
     eapply Henter; [simpl; rewrite Ht; reflexivity|..]; destruct ap; simpl; auto; rewrite ?Hreg, ?Hstore; reflexivity.
 Qed.
 
+Lemma sim_dellost sg f c t f' :
+  InvF f -> Sim f c -> fstep sg f (FEDelLost t) = Some f' -> simulated sg f' c.
+Proof.
+  intros I Sm H. simpl in H.
+  destruct (f_pcs f t) as [|ch|g| |old|nw o|oi ap|r k|r|r|r] eqn:Hpc; try discriminate.
+  assert (Hp : fpre (f_pcs f t) = true) by now rewrite Hpc.
+  pose proof (s_pcs f c Sm t) as Ht. rewrite Hpc in Ht. simpl in Ht.
+  pose proof (s_reg f c Sm) as Hreg. pose proof (s_store f c Sm) as Hstore.
+  assert (Henter : forall r c1 rg st, step sg c (EDelLost t) = Some c1 ->
+            pcs c1 = upd (pcs c) t (Completing r) -> pool c1 = pool c -> items c1 = items c -> pending c1 = pending c ->
+            reg c1 = rg -> store c1 = st ->
+            simulated sg (fnotify (fset_reg f rg st) t r) c).
+  { intros r c1 rg st Hs E1 E2 E3 E4 E5 E6.
+    destruct (sim_enter sg f c c1 t r (f_committed f) rg st I Sm Hp E1 E2 E3 E4 E5 E6) as (c2 & Hs2 & S2).
+    exists [EDelLost t; EComplete t], c2. split; [cbn -[step]; rewrite Hs; cbn -[step]; rewrite Hs2; reflexivity|exact S2]. }
+  injection H as <-.
+  eapply Henter; [simpl; rewrite Ht; reflexivity|..]; destruct ap; simpl; auto; rewrite ?Hreg, ?Hstore; reflexivity.
+Qed.
+
 Lemma sim_step sg f c e f' :
   InvF f -> Sim f c -> fstep sg f e = Some f' -> simulated sg f' c.
 Proof.
@@ -438,6 +457,7 @@ Proof.
   - eapply sim_put; eauto.
   - eapply sim_putlost; eauto.
   - eapply sim_del; eauto.
+  - eapply sim_dellost; eauto.
   - eapply sim_notify; eauto.
   - eapply sim_swap; eauto.
   - eapply sim_done; eauto.
